@@ -24,7 +24,7 @@ ASSUMPTIONS = ['key equality is == on the squared-up key cells (the reference us
 MODES = ['both-empty', 'left-empty', 'right-empty', 'left-ends-first-after-mismatch', 'right-ends-first-after-mismatch',
          'both-end-on-match', 'left-ends-first-after-match', 'right-ends-first-after-match']
 OPS = ['join', 'leftjoin', 'rightjoin', 'outerjoin', 'lookupjoin', 'antijoin']
-REQUIRED = ['views-read-twice'] + ['mode:' + m for m in MODES] + ['op:' + o for o in OPS] + ['op:crossjoin',
+REQUIRED = ['views-read-twice', 'inputs-are-pass-through-views'] + ['mode:' + m for m in MODES] + ['op:' + o for o in OPS] + ['op:crossjoin',
             'none-key-left+right-empty', 'none-key-right+left-empty', 'ragged-input', 'natural-key', 'lkey!=rkey', 'compound-key', 'presorted', 'presorted-ragged', 'key-by-index', 'key-index-0', 'chunked-sort-of-right-input', 'second-view-on-the-same-input-objects']
 
 
@@ -248,6 +248,12 @@ def judge(case, ctx):
         if len(right) - 1 > case['buffersize']:
             ctx.seen('chunked-sort-of-right-input')
     fn = getattr(petl, op)
+    form = int(util.fp(case)[4:6], 16) % 8
+    if form < 3:
+        # the inputs are themselves views that hand every row on as it is (ragged rows stay ragged)
+        passthrough = [petl.wrap, lambda t: petl.stack(t, pad=False, trim=False), lambda t: petl.rowslice(t, None)][form]
+        a, b = passthrough(a), passthrough(b)
+        ctx.seen('inputs-are-pass-through-views')
     got = util.attempt_rows_twice(lambda: fn(a, b, **kw))
     if isinstance(got, util.Raised):
         return {'kind': 'exception', 'detail': got.text, 'where': got.where, 'mode': mode, 'expected': [tuple(exp_hdr)] + exp_rows}
